@@ -46,5 +46,8 @@ import os, glob, importlib.util
 CHECKS = {}
 for _f in sorted(glob.glob(os.path.join(os.path.dirname(os.path.abspath(__file__)), 'checks.d', '*.py'))):
     _spec = importlib.util.spec_from_file_location('checks_' + os.path.basename(_f)[:-3], _f)
-    _m = importlib.util.module_from_spec(_spec); _spec.loader.exec_module(_m)
+    _m = importlib.util.module_from_spec(_spec)
+    try: _spec.loader.exec_module(_m)
+    except Exception as _e:      # a broken fragment must not take the other properties' checks down with it
+        import sys as _sys; print('WARNING: registry fragment %s cannot be loaded: %s' % (_f, _e), file=_sys.stderr); continue
     CHECKS.update(_m.CHECKS)
